@@ -78,6 +78,15 @@ def build_cases(seed, n_plain, n_fmt):
                                    group_kinds=("alternative", "or"), abstract_p=0.2)
             writers = ["uvl", "afm", "json", "glencoe", "fide", "splot", "exp"] + (["clafer"] if clafer_fragment(spec) else [])
         cases.append({"spec": spec, "writers": writers, "digest": S.digest(spec), "kind": "plain%d" % kind})
+    # wide cardinality groups (13-16 children): set iteration order shows only with many members
+    for k in (13, 16):
+        r = rand.rng(seed, "c12wide", k)
+        used = set()
+        kids = [{"name": rand.plain_name(r, used), "rels": []} for _ in range(k)]
+        spec = {"root": {"name": "Wide", "rels": [{"min": 2, "max": 3, "children": kids},
+                                                  {"min": 0, "max": 1, "children": [{"name": "Opt", "rels": []}]}]}, "ctcs": []}
+        cases.append({"spec": spec, "writers": ["uvl", "afm", "json", "splot", "exp"], "digest": S.digest(spec),
+                      "kind": "wide-group"})
     for fname, fmt in RT.FORMATS.items():
         classes = fmt.classes()
         na = [c for c in classes if c[0] in NONASCII]
